@@ -187,7 +187,7 @@ def run(ctx):
     # every identifier goes through the gate: a function of the lexer that makes a plain `Label` token does so only after the keyword routine
     # has seen the identifier (in the routine itself, behind a call of it, or in a helper that is only called from such places) - an early
     # `return Ok(Label)` in front of the lookup lets `push:` through with the flag off
-    ctx.rule("C18.R6", "a Label token is only made once the keyword routine has looked at the identifier", floor=2)
+    ctx.rule("C18.R6", "a Label token is only made once the keyword routine has looked at the identifier", floor=1)
     lexmod = "lace::lexer::"
     def makes_label(f):
         out = []
@@ -227,7 +227,7 @@ def run(ctx):
                 ctx.violation("label-before-gate|%s" % short(n), sp_file_line(s_.get("sp")),
                               "`%s` makes a Label token without the keyword routine (%s) having looked at the identifier: a stack mnemonic taking this "
                               "path is accepted as a label with the flag off" % (short(n), short(LEX)))
-    ctx.need(nlabel >= 2, "constructions of TokenKind::Label in the lexer (found %d)" % nlabel)
+    ctx.need(nlabel >= 1, "constructions of TokenKind::Label in the lexer (found %d)" % nlabel)
     ctx.finish_rule()
 
     ctx.rule("C18.R4", "closed set of readers of the flag", floor=5)
